@@ -10,8 +10,8 @@ namespace nk {
 template <typename N> inline std::vector<N> accs8(bool all, unsigned lo = 0, unsigned hi = 255) {
   if (all) return range8<N>(lo, hi);
   typedef typename Kind<N>::raw_t T; std::vector<N> v;
-  static const int S[] = { -128, -127, -126, -64, -2, -1, 0, 1, 2, 5, 63, 64, 125, 126, 127 };
-  static const int U[] = { 0, 1, 2, 5, 15, 16, 127, 128, 251, 252, 253, 254, 255 };
+  static const int S[] = { -128, -127, -126, -1, 0, 1, 5, 126, 127 };      // -inf, nan, min, ..., max, +inf of the extended policies
+  static const int U[] = { 0, 1, 5, 128, 252, 253, 254, 255 };
   if (std::is_signed<T>::value) for (size_t i = 0; i < sizeof S / sizeof S[0]; ++i) v.push_back(from_bits8<N>((unsigned) (S[i] & 0xff)));
   else for (size_t i = 0; i < sizeof U / sizeof U[0]; ++i) v.push_back(from_bits8<N>((unsigned) U[i]));
   return v;
